@@ -26,6 +26,7 @@ func init() {
 type bwsRoles struct {
 	mu, writer, ticker, stop, done, initialized, stopped string
 	initFn, loop                                         *ssa.Function
+	loopGo                                               *ssa.Go
 }
 
 var bwsR bwsRoles
@@ -40,6 +41,20 @@ func top(path string) string {
 
 func (r bwsRoles) guarded() map[string]bool {
 	return map[string]bool{top(r.initialized): true, top(r.stopped): true, top(r.writer): true, top(r.ticker): true, top(r.stop): true, top(r.done): true, "Clock": true}
+}
+
+// loopArg: what a value of the flush loop stands for - for a parameter of the loop, the argument the go statement that
+// starts it passes (the loop may be handed the syncer's channels instead of reading them from the receiver).
+func (r *bwsRoles) loopArg(v ssa.Value) ssa.Value {
+	if p, ok := v.(*ssa.Parameter); ok && r.loopGo != nil && p.Parent() == r.loop {
+		args := r.loopGo.Call.Args
+		for i, q := range r.loop.Params {
+			if q == p && i < len(args) {
+				return args[i]
+			}
+		}
+	}
+	return v
 }
 
 func discoverBWS(c *Ctx, bws *types.Named) (r bwsRoles, ok bool) {
@@ -108,7 +123,7 @@ func discoverBWS(c *Ctx, bws *types.Named) (r bwsRoles, ok bool) {
 			if g, isGo := i.(*ssa.Go); isGo {
 				if sc := g.Call.StaticCallee(); sc != nil {
 					if rn := RecvNamed(sc); rn != nil && rn.Obj() == bws.Obj() {
-						r.loop = sc
+						r.loop, r.loopGo = sc, g
 					}
 				}
 			}
@@ -119,7 +134,7 @@ func discoverBWS(c *Ctx, bws *types.Named) (r bwsRoles, ok bool) {
 		for _, g := range WithClosures(r.loop) {
 			for _, cl := range Calls(g) {
 				if CallBuiltin(cl) == "close" && len(cl.Common().Args) == 1 {
-					d := Desc(cl.Common().Args[0])
+					d := Desc(r.loopArg(cl.Common().Args[0]))
 					for _, cd := range chans {
 						if strings.HasSuffix(d, "."+cd.path) {
 							r.done = cd.path
@@ -407,7 +422,7 @@ func c12Rules(c *Ctx, r1, r2, r3, r4, r5 string) {
 		name := loop.String()
 		deferClose := false
 		AllInstrs(loop, func(i ssa.Instruction) {
-			if d, ok := i.(*ssa.Defer); ok && CallBuiltin(d) == "close" && strings.HasSuffix(Desc(d.Call.Args[0]), "."+roles.done) && d.Block() == loop.Blocks[0] {
+			if d, ok := i.(*ssa.Defer); ok && CallBuiltin(d) == "close" && strings.HasSuffix(Desc(roles.loopArg(d.Call.Args[0])), "."+roles.done) && d.Block() == loop.Blocks[0] {
 				deferClose = true
 			}
 		})
@@ -463,6 +478,10 @@ func c12Rules(c *Ctx, r1, r2, r3, r4, r5 string) {
 					return ""
 				}
 				d := st.Desc(sel.States[kk].Chan)
+				if p, isP := sel.States[kk].Chan.(*ssa.Parameter); isP {
+					// a channel the go statement hands to the loop
+					d = Desc(roles.loopArg(p))
+				}
 				nm := "case?" + d
 				switch {
 				case strings.HasSuffix(d, "."+roles.ticker+".C"):
@@ -504,7 +523,7 @@ func c12Rules(c *Ctx, r1, r2, r3, r4, r5 string) {
 			AllInstrs(fn, func(i ssa.Instruction) {
 				if g, ok := i.(*ssa.Go); ok {
 					goes++
-					c.Check(fn == initFn && IsCallTo(g, "(*go.uber.org/zap/zapcore.BufferedWriteSyncer).flushLoop"), r5, FuncKey(fn), "go-statement", g.Pos(), "the only goroutine zapcore starts is the flush loop, from initialize")
+					c.Check(fn == initFn && g.Call.StaticCallee() == loop, r5, FuncKey(fn), "go-statement", g.Pos(), "the only goroutine zapcore starts is the flush loop, from initialize")
 				}
 			})
 		})
